@@ -660,4 +660,82 @@ def chunks (W : Nat) : Nat → List Byte → List (List Byte)
 
 end WScreen
 
+/-! ## round 3b: the count parameters at their C width
+
+`sline_backspace(sl, unsigned int count)`, `sline_delete(sl, unsigned int count)` and the C++
+wrappers `igris::sline::backspace(int)`, `igris::sline::del(int)` (which convert the `int` to the
+`unsigned int` parameter: `-1` is `UINT_MAX`, the "delete everything" idiom).  `cap`, `len`,
+`cursor` are `unsigned int`: every intermediate value below is a `BitVec 32`, computed in the
+order the code computes it, so that the clamp is the comparison the code makes
+(`count > len - cursor`, NOT `cursor + count > len`, which wraps for `count > UINT_MAX - cursor`).
+Nothing is flagged here when a subtraction wraps: unsigned wrap-around is defined in C; what a
+wrapped value does shows in `len` / `cursor` and in the index check of the `memmove`.
+The pointer arithmetic `buf + cursor + count` is 64-bit (no wrap at 32 bits). -/
+
+namespace Sline
+
+/-- an `unsigned int` field as the 32-bit value it is -/
+def u32 (n : Nat) : BitVec 32 := BitVec.ofNat 32 n
+
+/-- `sline_rightsize`: `sl->len - sl->cursor` in `unsigned int` -/
+def rightsizeC (s : Sline) : BitVec 32 := u32 s.len - u32 s.cursor
+
+/-- `sline_backspace(sl, count)`, returns `(int)count` -/
+def backspaceC (s : Sline) (count : BitVec 32) : Sline × Int :=
+  let count := if count > u32 s.cursor then u32 s.cursor else count
+  let len := u32 s.len - count
+  let cursor := u32 s.cursor - count
+  if cursor ≠ len then
+    let m := mmove s.buf cursor.toNat (cursor.toNat + count.toNat) (len - cursor).toNat
+    ({ s with buf := m.1, len := len.toNat, cursor := cursor.toNat, fault := s.fault || m.2 }, count.toInt)
+  else
+    ({ s with len := len.toNat, cursor := cursor.toNat }, count.toInt)
+
+/-- `sline_delete(sl, count)`, returns `(int)count` -/
+def deleteC (s : Sline) (count : BitVec 32) : Sline × Int :=
+  let count := if count > s.rightsizeC then s.rightsizeC else count
+  let len := u32 s.len - count
+  if u32 s.cursor ≠ len then
+    let m := mmove s.buf s.cursor (s.cursor + count.toNat) (len - u32 s.cursor).toNat
+    ({ s with buf := m.1, len := len.toNat, fault := s.fault || m.2 }, count.toInt)
+  else
+    ({ s with len := len.toNat }, count.toInt)
+
+/-- `igris::sline::backspace(int i)`: `::sline_backspace(&sl, i)` converts the `int` to `unsigned int` -/
+def backspaceI (s : Sline) (i : Int) : Sline × Int := s.backspaceC (BitVec.ofInt 32 i)
+
+/-- `igris::sline::del(int i)` -/
+def deleteI (s : Sline) (i : Int) : Sline × Int := s.deleteC (BitVec.ofInt 32 i)
+
+/-- `igris::sline::set_size_and_cursor(size_t sz, size_t cursor)`: `sl.len = sz; sl.cursor = cursor;`
+stores a `size_t` into an `unsigned int` field (low 32 bits) -/
+def setSizeCursorC (s : Sline) (sz cursor : Nat) : Sline :=
+  { s with len := sz % 4294967296, cursor := cursor % 4294967296 }
+
+end Sline
+
+/-! ### round 3b: the ring offsets of the history at their C width
+
+`readline_history_pointer`: `int idx = (rl->headhist + rl->history_size - num) % rl->history_size;`
+(all `unsigned int`), `rl->history_space + idx * rl->line.cap` — `int * unsigned int` is an `unsigned
+int` product, it wraps modulo 2^32 BEFORE it is added to the pointer; the push computes
+`rl->headhist * rl->line.cap` the same way, `readline_history_init` clears `rl->line.cap * hsize`
+bytes.  (`histOff` above is the unbounded offset the theorems use; `ring_offsets_width_partial`
+proves them equal for a ring below 4 GiB.) -/
+
+namespace Readline
+
+/-- byte offset `readline_history_pointer(rl, num)` really adds to `history_space` -/
+def histOffC (rl : Readline) (num : Nat) : Nat :=
+  let idx : BitVec 32 := (Sline.u32 rl.headhist + Sline.u32 rl.hsize - Sline.u32 num) % Sline.u32 rl.hsize
+  (idx * Sline.u32 rl.line.cap).toNat
+
+/-- byte offset of the slot `_readline_push_line_to_history` writes -/
+def pushOffC (rl : Readline) : Nat := (Sline.u32 rl.headhist * Sline.u32 rl.line.cap).toNat
+
+/-- number of bytes `readline_history_init` clears -/
+def clearedC (rl : Readline) : Nat := (Sline.u32 rl.line.cap * Sline.u32 rl.hsize).toNat
+
+end Readline
+
 end Igris.C15
